@@ -135,7 +135,7 @@ def call_named(*attrs):
     return pred
 
 
-def check_order(ctx, rule, fi, preds, before=(), after_loop=(), forbid_ctx=(), required=(), once=()):
+def check_order(ctx, rule, fi, preds, before=(), after_loop=(), forbid_ctx=(), required=(), once=(), not_after=()):
     """before: (A, B) pairs - on every path each B is preceded by an A that is not inside a loop B is outside of.
     after_loop: (X, loop_pred) - X occurs outside that loop and after its LOOP-EXIT.
     forbid_ctx: names that must not occur in handler / finally context.
@@ -155,6 +155,13 @@ def check_order(ctx, rule, fi, preds, before=(), after_loop=(), forbid_ctx=(), r
                          for x in evs[:i])
                 if not ok:
                     problems.setdefault((a + ' before ' + b, e.node), p)
+        for a, b in not_after:
+            seen_b = False
+            for e in evs:
+                if e.name == b:
+                    seen_b = True
+                elif e.name == a and seen_b:
+                    problems.setdefault((a + ' never after ' + b, e.node), p)
         for x, loop_pred in after_loop:
             for i, e in enumerate(evs):
                 if e.name != x:
